@@ -39,6 +39,8 @@ pub const BAD: &[&str] = &[
     "This is wrong ,right after the comma.",
     // a lint that encloses other lints
     "He said teh teh thing again.",
+    // a lint whose span contains a line break
+    "We walked to the\nthe park together.",
     "This sentence is very long because it keeps going on and on with more and more wrods that nobody needs to read at all and it still does not stop even though the reader has lost all intrest in it by now and wants it to end.",
 ];
 
@@ -292,6 +294,7 @@ pub fn wrap(lang: &str, paras: &[String], rng: &mut Rng) -> String {
             }
             for (i, p) in paras.iter().enumerate() {
                 // one comment line per sentence-ish chunk keeps lines short
+                let p = p.replace('\n', " ");
                 for part in p.split_inclusive(". ") {
                     out.push_str(lc);
                     out.push(' ');
